@@ -15,6 +15,7 @@ import (
 
 // Ctx is what a rule sees.
 type Ctx struct {
+	paramTrail     map[*ssa.Parameter]string // loadersLink: the field trail a worker's parameter stands for at the call being followed
 	termCache      map[*ssa.Function]*termSum
 	fieldTypes     map[*types.Var][]types.Type
 	fieldTypesTop  map[*types.Var]bool
